@@ -64,14 +64,14 @@ CONTRACTS = {
                        "ensures": {"proper dict": "wf_map(result) and forall(k, Str, implies(has(result, k), result[k] is not None))"}, "note": "typing.get_type_hints(type(component))"},
     "rinit.hasattr": {"kind": "external", "params": {"obj": "py", "name": "Str"}, "returns": "Bool", "ensures": {"hasattr(self, m)": "result == robot_has(name)"}, "note": "hasattr(self, m): the attribute was already set by the user (reflection)"},
     "types.SimpleNamespace.__init__": {"kind": "external", "params": {}, "modifies": [], "ensures": {}},
-    "magic_tunable.setup_tunables": {"kind": "external", "params": {"component": "py", "cname": "py", "prefix": "py"}, "modifies": [], "ensures": {}, "note": "setup_tunables: verified under C09 (contracts/tunable.py)"},
-    "magic_tunable.collect_feedbacks": {"kind": "external", "params": {"component": "Ref:PyObj", "cname": "py", "prefix": "py"}, "returns": "Seq[(Ref:FbGetter,Ref:FbSetter)]", "modifies": [], "allocates": True,
+    "magic_tunable.setup_tunables": {"kind": "external", "cites": ['C09.S1'], "params": {"component": "py", "cname": "py", "prefix": "py"}, "modifies": [], "ensures": {}, "note": "setup_tunables: verified under C09 (contracts/tunable.py)"},
+    "magic_tunable.collect_feedbacks": {"kind": "external", "cites": ['C11.K3', 'C11.K4'], "params": {"component": "Ref:PyObj", "cname": "py", "prefix": "py"}, "returns": "Seq[(Ref:FbGetter,Ref:FbSetter)]", "modifies": [], "allocates": True,
                                         "ensures": {"a list": "len(result) >= 0",
                                                     "C11.K3/K4 (verified in contracts/tunable.py): getters are bound methods of the object, pairwise distinct; setters are new, pairwise distinct objects":
                                                     "forall(a, Int, implies(0 <= a and a < len(result), result[a][0] is not None and result[a][0].g_owner is component and result[a][1] is not None and allocated(result[a][1]) and not old(allocated(result[a][1])))) and "
                                                     "forall(a, Int, forall(b, Int, implies(0 <= a and a < b and b < len(result), not (result[a][0] is result[b][0]) and not (result[a][1] is result[b][1]))))"},
                                         "note": "collect_feedbacks: key derivation and K3/K4 verified under C11 (contracts/tunable.py); restated here (separate class table)"},
-    "magic_reset.collect_resets": {"kind": "external", "params": {"cls": "py"}, "returns": "Ref:ResetDictObj", "ensures": {"a dict; falsy iff empty": "result is not None and truthy(result) == (len(keys(result.d)) > 0)"},
+    "magic_reset.collect_resets": {"kind": "external", "cites": ['C10.C1'], "params": {"cls": "py"}, "returns": "Ref:ResetDictObj", "ensures": {"a dict; falsy iff empty": "result is not None and truthy(result) == (len(keys(result.d)) > 0)"},
                                    "note": "collect_resets: verified in contracts/reset.py (dict modelled as an object with a map field)"},
     "rinit.dict_update_map": {"kind": "external", "params": {"obj": "Ref:InjTarget", "m": "Map[Str,Ref:PyObj]"}, "modifies": ["obj.attrs"],
                               "ensures": {"dict.update: every key of the mapping is set": "forall(k, Str, implies(has(m, k), has(obj.attrs, k) and obj.attrs[k] is m[k]))",
